@@ -90,20 +90,21 @@ type UpdEvt struct {
 
 // Plug is a scripted plugin implementing every handler.
 type Plug struct {
-	h        *H1
-	Name     string
-	Idx      string
-	Mask     api.EventMask // returned by Configure (0 = everything)
-	CfgErr   string
-	Conn     *sim.Conn
-	Stub     stub.Stub
-	StartErr error
-	Started  bool
-	Closed   int // OnClose calls
-	DialIdx  int // position of the current connection in the listener's accept order
-	Redials  int
-	SyncUpd  []*api.ContainerUpdate
-	cfgSeen  int
+	h           *H1
+	Name        string
+	Idx         string
+	Mask        api.EventMask // returned by Configure (0 = everything)
+	CfgErr      string
+	Conn        *sim.Conn
+	Stub        stub.Stub
+	StartErr    error
+	Started     bool
+	Closed      int // OnClose calls
+	DialIdx     int // position of the current connection in the listener's accept order
+	Redials     int
+	SyncUpd     []*api.ContainerUpdate
+	OnConfigure func() // called from inside the Configure handler
+	cfgSeen     int
 }
 
 func NewH1(e *Env, treq, treg time.Duration) *H1 {
@@ -198,6 +199,12 @@ func (h *H1) updFn(ctx context.Context, u []*api.ContainerUpdate) ([]*api.Contai
 
 // AddPlugin creates a stub-based plugin and dials the runtime; it does not start it.
 func (h *H1) AddPlugin(name, idx string, mask api.EventMask) *Plug {
+	return h.AddPluginAs(name, name, idx, mask)
+}
+
+// AddPluginAs is AddPlugin for a plugin that registers under regName (several plugin instances may
+// register under one name and index); name is the harness-internal identity used in the history.
+func (h *H1) AddPluginAs(name, regName, idx string, mask api.EventMask) *Plug {
 	p := &Plug{h: h, Name: name, Idx: idx, Mask: mask}
 	h.mu.Lock()
 	p.DialIdx = h.ndials
@@ -220,7 +227,7 @@ func (h *H1) AddPlugin(name, idx string, mask api.EventMask) *Plug {
 		h.mu.Unlock()
 		return c, nil
 	}
-	st, err := stub.New(p, stub.WithPluginName(name), stub.WithPluginIdx(idx), stub.WithConnection(p.Conn), stub.WithDialer(redial),
+	st, err := stub.New(p, stub.WithPluginName(regName), stub.WithPluginIdx(idx), stub.WithConnection(p.Conn), stub.WithDialer(redial),
 		stub.WithOnClose(func() { h.mu.Lock(); p.Closed++; h.mu.Unlock() }))
 	if err != nil {
 		panic(err)
@@ -319,6 +326,9 @@ func (p *Plug) Configure(ctx context.Context, config, runtime, version string) (
 	p.h.mu.Lock()
 	p.cfgSeen++
 	p.h.mu.Unlock()
+	if p.OnConfigure != nil {
+		p.OnConfigure()
+	}
 	if p.CfgErr != "" {
 		return 0, fmt.Errorf("%s", p.CfgErr)
 	}
